@@ -643,6 +643,22 @@ def run(prog, rep, tier):
             rep.violation(R68, "%s|registration" % PL, "processing_loop: a source is registered as awaiting FileInfo (line %d) but is not entered in %s, which the spawn loop iterates: %s; "
                           "a dismissed source (empty or tiny file) then blocks printing of every other source" % (r.line, sorted(b.local_name(x) for x in iterated), why))
 
+    # ------------------------------------------------------------ R6.8b spawn failure un-registers the source
+    import c03 as _c03b
+    import flow as _flow
+    swbb_, arms_s, oth_s = _c03b.result_arms(b, sp)
+    err_t = arms_s.get(1)
+    wl = set(_flow.named_target(b, r.args[0]) for r in regs)
+    undo = [c for c in b.live_calls() if c.d.split("::")[-1] in ("remove", "insert", "remove_entry") and ("HashMap" in c.d or "BTreeMap" in c.d) and c.args and _flow.named_target(b, c.args[0]) in wl
+            and (c.d.split("::")[-1] != "insert" or (len(c.args) == 3 and c.args[2][0] == "k" and c.args[2][2] is True))]
+    if err_t is None:
+        raise CheckerError("processing_loop: Err arm of the spawn result not found")
+    leak = [x for x in b.reachable(err_t, set(c.bb for c in undo)) if x in hdrs2 or (hdrs2 and x not in b.loop_blocks(hdrs2[0]) and b.term(x)[0] != "unreachable")]
+    rep.examined(R68, "%s|spawn-failure" % PL, sample={"err_arm": err_t, "unregister_calls": [c.line for c in undo if c.bb in b.reachable(err_t)], "loop_continues_still_registered": bool(leak)})
+    if leak:
+        rep.violation(R68, "%s|spawn-failure" % PL, "processing_loop: when a worker thread cannot be spawned its channel is removed but the source stays registered as awaiting FileInfo; "
+                      "the print gate never opens and nothing is printed for the other sources (4 files under `ulimit -u` leaving room for 3 threads: 0 lines, exit 0)")
+
     return rep.finish(
         "Static necessary-condition check of the coordination protocol: typestate fixpoint of the worker protocol over all CFG paths of the four "
         "worker functions (no return before FileInfo, no send after FileSummary), the coordinator's wait condition and books (C01 R1.2/R1.3), "
